@@ -253,13 +253,13 @@ Proof.
       rewrite (chunk_nat b Hb). fold k. rewrite (nth_error_nth_len cs k ANil) by lia.
       destruct (nth k cs ANil) as [|a|ccs] eqn:Ec.
       - apply shape_nil in Hc. destruct (newPath_ok h leaf Hl) as [Hs' Hg'].
-        eexists; split; [reflexivity|]. rewrite <- Hc. split; [exact Hs'|]. split.
+        eexists; split; [reflexivity|]. rewrite Hc. split; [exact Hs'|]. split.
         + intros j Hj. lia.
-        + intros j Hj. apply Hg'. apply (Nat.div_small_iff _ _ ltac:(lia)). exact Hj.
+        + intros j Hj. apply Hg'. apply Nat.div_small_iff; [lia|exact Hj].
       - exfalso. eapply shape_not_val; exact Hc.
       - assert (0 < Lc).
         { destruct Lc; [|lia]. apply shape_zero in Hc. discriminate. }
-        destruct (IH (ANode ccs) Lc p leaf Hl (or_intror (conj H Hc)) Hlt eq_refl) as [c' [E [Hs' [G1 G2]]]].
+        destruct (IH (ANode ccs) Lc p leaf Hl ltac:(right; split; assumption) Hlt eq_refl) as [c' [E [Hs' [G1 G2]]]].
         rewrite E. eexists; split; [reflexivity|]. split; [exact Hs'|]. split; assumption. }
     destruct Hchild as [c' [E [Hs' [G1 G2]]]]. rewrite E. eexists; split; [reflexivity|].
     split; [|split].
@@ -272,13 +272,115 @@ Proof.
         apply Hk; exact Hk'.
     + intros j Hj. rewrite !tget_S by (rewrite ?upd_length; exact Hcs).
       rewrite idx_split in Hj. pose proof (mod_pw_lt (S h) j) as R. rewrite (pw_S b h) in Hj, R.
-      destruct (Nat.eq_dec (dig j (S h)) k) as [->|Ne].
-      * rewrite nth_upd_same by lia. apply G1. rewrite (pw_S b h). nia.
+      destruct (Nat.eq_dec (dig j (S h)) k) as [Ej|Ne].
+      * rewrite Ej in *. rewrite nth_upd_same by lia. apply G1. rewrite (pw_S b h).
+        set (r := j mod (Bn * pw h)) in *. clearbody r k Lc. rewrite Hsp in Hj.
+        clear - Hj R Hlt P HB. nia.
       * rewrite nth_upd_other by exact Ne. reflexivity.
     + intros j Hj. rewrite !tget_S by (rewrite ?upd_length; exact Hcs).
       destruct (leaf_split h j) as [Hsj Hltj]. rewrite Hj in Hsj.
       assert (dig j (S h) = k) by nia.
       rewrite H. rewrite nth_upd_same by lia. apply G2. nia.
+Qed.
+
+Lemma pw0 : pw 0 = 1.
+Proof. reflexivity. Qed.
+
+(* ---- popTail (levels >= 1) ---- *)
+Lemma popTail_SS cnt l cs :
+  popTail b cnt (S (S l)) (ANode cs) =
+  match nth_error cs (chunk b (cnt - 2) (S (S l))) with
+  | Some (ANode ccs) =>
+    match popTail b cnt (S l) (ANode ccs) with
+    | Some newChild =>
+      if isNil newChild && (chunk b (cnt - 2) (S (S l)) =? 0) then Some ANil
+      else Some (ANode (upd (chunk b (cnt - 2) (S (S l))) newChild cs))
+    | None => None
+    end
+  | _ => None
+  end.
+Proof. cbn [popTail]. destruct (nth_error cs (chunk b (cnt - 2) (S (S l)))) as [[| |ccs]|]; reflexivity. Qed.
+
+Lemma popTail_ok h : forall n L p, shape (S h) n L -> 0 < L ->
+  (p mod pw (S (S h))) / Bn = L - 1 ->
+  exists n', popTail b (Z.of_nat p + 2) (S h) n = Some n' /\ shape (S h) n' (L - 1) /\
+   forall j, j mod pw (S (S h)) < (L - 1) * Bn -> tget (S h) n' j = tget (S h) n j.
+Proof.
+  pose proof (B_ge2 b Hb) as HB.
+  induction h as [|h IH]; intros n L p Hs HL0 Hp.
+  - destruct (shape_node _ _ _ Hs HL0) as [cs [-> Hcs]].
+    apply shape_S_inv in Hs. destruct Hs as [HLb [_ Hk]].
+    destruct (leaf_split 0 p) as [Hsp Hlt]. rewrite Hp, pw0 in Hsp. rewrite pw0 in Hlt.
+    set (k := dig p 1) in *. assert (Hkb : k < Bn) by (apply dig_lt; exact Hb).
+    cbn [popTail]. replace (Z.of_nat p + 2 - 2)%Z with (Z.of_nat p) by lia.
+    rewrite (chunk_nat b Hb). fold k.
+    destruct (Nat.eqb_spec k 0) as [E0|E0].
+    + eexists; split; [reflexivity|]. replace (L - 1) with 0 by lia. split; [apply shape_nil_0|].
+      intros j Hj. lia.
+    + eexists; split; [reflexivity|]. split.
+      * cbn [shape]. right. split; [fold (pw 1); lia|]. eexists; split; [reflexivity|].
+        rewrite upd_length. split; [exact Hcs|]. intros k' Hk'. rewrite pw0.
+        destruct (Nat.eq_dec k' k) as [Ek|Ne].
+        -- rewrite Ek, nth_upd_same by lia. replace (Nat.min 1 (L - 1 - k * 1)) with 0 by lia. apply (shape_nil_0 0).
+        -- rewrite nth_upd_other by exact Ne.
+           replace (Nat.min 1 (L - 1 - k' * 1)) with (Nat.min 1 (L - k' * 1)) by lia.
+           specialize (Hk k' Hk'). rewrite pw0 in Hk. exact Hk.
+      * intros j Hj. rewrite !tget_S by (rewrite ?upd_length; exact Hcs).
+        rewrite idx_split, pw1 in Hj. rewrite nth_upd_other; [reflexivity|]. fold k in Hsp. nia.
+  - destruct (shape_node _ _ _ Hs HL0) as [cs [-> Hcs]].
+    apply shape_S_inv in Hs. destruct Hs as [HLb [_ Hk]].
+    destruct (leaf_split (S h) p) as [Hsp Hlt]. rewrite Hp in Hsp.
+    set (k := dig p (S (S h))) in *. set (Lr := (p mod pw (S (S h))) / Bn) in *.
+    assert (Hkb : k < Bn) by (apply dig_lt; exact Hb).
+    pose proof (pw_pos b Hb (S h)) as P.
+    pose proof (Hk k Hkb) as Hc.
+    replace (Nat.min (pw (S h)) (L - k * pw (S h))) with (Lr + 1) in Hc by nia.
+    destruct (shape_node _ _ _ Hc ltac:(lia)) as [ccs [Ec Hccs]].
+    destruct (IH _ _ p Hc ltac:(lia) ltac:(fold Lr; lia)) as [nc [E [Hs' G]]].
+    replace (Lr + 1 - 1) with Lr in * by lia.
+    rewrite popTail_SS. replace (Z.of_nat p + 2 - 2)%Z with (Z.of_nat p) by lia.
+    rewrite (chunk_nat b Hb). fold k. rewrite (nth_error_nth_len cs k ANil) by lia.
+    rewrite Ec. rewrite Ec in E. rewrite E.
+    destruct (isNil nc && (k =? 0)) eqn:Eb.
+    + apply andb_true_iff in Eb. destruct Eb as [En Ek]. apply Nat.eqb_eq in Ek.
+      destruct nc; try discriminate. apply shape_nil in Hs'.
+      eexists; split; [reflexivity|]. replace (L - 1) with 0 by nia. split; [apply shape_nil_0|].
+      intros j Hj. lia.
+    + assert (HL1 : 0 < L - 1).
+      { apply andb_false_iff in Eb. destruct Eb as [En|Ek].
+        - destruct Lr; [apply shape_zero in Hs'; subst nc; discriminate|lia].
+        - apply Nat.eqb_neq in Ek. nia. }
+      eexists; split; [reflexivity|]. split.
+      * cbn [shape]. right. split; [fold (pw (S (S h))); lia|]. eexists; split; [reflexivity|].
+        rewrite upd_length. split; [exact Hcs|]. intros k' Hk'.
+        destruct (Nat.eq_dec k' k) as [Ek|Ne].
+        -- rewrite Ek, nth_upd_same by lia.
+           replace (Nat.min (pw (S h)) (L - 1 - k * pw (S h))) with Lr by nia. exact Hs'.
+        -- rewrite nth_upd_other by exact Ne.
+           replace (Nat.min (pw (S h)) (L - 1 - k' * pw (S h))) with (Nat.min (pw (S h)) (L - k' * pw (S h))) by nia.
+           apply Hk; exact Hk'.
+      * intros j Hj. rewrite !tget_S by (rewrite ?upd_length; exact Hcs).
+        rewrite idx_split in Hj. pose proof (mod_pw_lt (S (S h)) j) as R.
+        destruct (Nat.eq_dec (dig j (S (S h))) k) as [Ej|Ne].
+        -- rewrite Ej in *. rewrite nth_upd_same by lia. apply G.
+           rewrite (pw_S b (S h)) in Hj, R |- *.
+           set (r := j mod (Bn * pw (S h))) in *. clearbody r k Lr.
+           assert (L - 1 = Lr + pw (S h) * k) by lia.
+           clear - Hj R Hlt P HB H. nia.
+        -- rewrite nth_upd_other by exact Ne. reflexivity.
+Qed.
+
+(* descend depends only on the leaf number of the index *)
+Lemma descend_leaf h : forall n i j, i / Bn = j / Bn ->
+  descend b h n (Z.of_nat i) = descend b h n (Z.of_nat j).
+Proof.
+  pose proof (B_ge2 b Hb) as HB.
+  induction h as [|h IH]; intros n i j E; [reflexivity|].
+  destruct n as [| |cs]; try reflexivity. rewrite !descend_S.
+  assert (D : dig i (S h) = dig j (S h)).
+  { unfold C06_defs.dig. rewrite (pw_S b h). rewrite <- !Nat.div_div by (pose proof (pw_pos b Hb h); lia).
+    rewrite E. reflexivity. }
+  rewrite D. destruct (nth_error cs (dig j (S h))); [apply IH; exact E|reflexivity].
 Qed.
 
 End Tree.
